@@ -4,16 +4,19 @@ C13 — The endorsement manifest stays a faithful index over every endorse histo
 Property theorems only (helper lemmas live in Proofs/Manifest.lean).
 
 Model scope: manifest mode of `endorse.changeEndorsements` (no snapshot directory, not dry-run),
-candidate names that are plain basenames (so `path.Join(outDir, basename)` is injective).
+candidate names in canonical spelling; snapshot-mode runs (separate snapshot directory) leave the
+store of the output directory untouched.
 -/
 namespace GceTcb.Manifest
 
 /-- One run preserves the invariant: paths unique, digests unique, every entry's path names a file
     whose signed firmware digest equals the entry's digest. -/
 theorem C13_inv_step (s : Store) (r : Run) (h : Inv s) : Inv (endorseRun s r).1 := by
+  by_cases hsn : r.snapshot = true
+  · simp only [endorseRun, hsn, if_true]; exact h
   by_cases hc : ((lookup s.files (basename r.cand)).isSome && !r.overwrite) = true
-  · simp only [endorseRun, hc, if_true]; exact h
-  · simp only [endorseRun, hc]
+  · simp only [endorseRun, hsn, hc, if_true]; exact h
+  · simp only [endorseRun, hsn, hc]
     exact ⟨unique_addEntry _ _ h.1, faithful_addEntry _ _ ⟨basename r.cand, r.digest, r.time⟩ h.1 h.2⟩
 
 /-- Every reachable store (any history of runs from the empty store) satisfies the invariant. -/
@@ -26,13 +29,14 @@ theorem C13_inv_reachable (rs : List Run) : Inv (runAll Store.empty rs) := by
   exact gen rs _ ⟨⟨by simp [Store.empty], by simp [Store.empty]⟩, by intro x hx; simp [Store.empty] at hx⟩
 
 /-- The firmware digest of the latest successful run maps to the file that run wrote. -/
-theorem C13_latest_maps (s : Store) (r : Run) (h : Inv s) (ok : (endorseRun s r).2 = true) :
+theorem C13_latest_maps (s : Store) (r : Run) (h : Inv s) (hsn : r.snapshot = false)
+    (ok : (endorseRun s r).2 = true) :
     (⟨basename r.cand, r.digest, r.time⟩ : Entry) ∈ (endorseRun s r).1.manifest ∧
     lookup (endorseRun s r).1.files (basename r.cand) = some r.digest ∧
     (∀ x ∈ (endorseRun s r).1.manifest, x.digest = r.digest → x.path = basename r.cand) := by
   by_cases hc : ((lookup s.files (basename r.cand)).isSome && !r.overwrite) = true
-  · simp [endorseRun, hc] at ok
-  · simp only [endorseRun, hc]
+  · simp [endorseRun, hsn, hc] at ok
+  · simp only [endorseRun, hsn, hc]
     have hm := mem_addEntry s.manifest ⟨basename r.cand, r.digest, r.time⟩ h.1
     refine ⟨hm, by simp [lookup_writeFile], ?_⟩
     intro x hx hd
@@ -43,21 +47,25 @@ theorem C13_latest_maps (s : Store) (r : Run) (h : Inv s) (ok : (endorseRun s r)
 /-- Without overwrite permission an existing endorsement file is never replaced (nothing changes). -/
 theorem C13_no_overwrite_without_permission (s : Store) (r : Run)
     (hex : (lookup s.files (basename r.cand)).isSome = true) (hno : r.overwrite = false) :
-    (endorseRun s r).1 = s ∧ (endorseRun s r).2 = false := by
+    (endorseRun s r).1 = s ∧ (r.snapshot = false → (endorseRun s r).2 = false) := by
   unfold endorseRun
-  simp [hex, hno]
+  by_cases hsn : r.snapshot = true
+  · simp [hsn]
+  · simp [hsn, hex, hno]
 
 /-- Files other than the one the run names are never touched. -/
 theorem C13_other_files_untouched (s : Store) (r : Run) (q : String) (hq : q ≠ basename r.cand) :
     lookup (endorseRun s r).1.files q = lookup s.files q := by
+  by_cases hsn : r.snapshot = true
+  · simp only [endorseRun, hsn, if_true]
   by_cases hc : ((lookup s.files (basename r.cand)).isSome && !r.overwrite) = true
-  · simp only [endorseRun, hc, if_true]
-  · simp [endorseRun, hc, lookup_writeFile, hq]
+  · simp [endorseRun, hsn, hc]
+  · simp [endorseRun, hsn, hc, lookup_writeFile, hq]
 
 /-- Non-vacuity: a concrete three-run history that exercises the path branch with stale-digest
     removal, ending in a two-entry store that satisfies the invariant. -/
 example :
-    let rs : List Run := [⟨"rc0", "aa", "1", false⟩, ⟨"rc1", "bb", "2", false⟩, ⟨"rc0", "bb", "3", true⟩]
+    let rs : List Run := [⟨"rc0", "aa", "1", false, false⟩, ⟨"rc1", "bb", "2", false, false⟩, ⟨"rc0", "bb", "3", true, false⟩]
     (runAll Store.empty rs).manifest = [⟨"rc0.binarypb", "bb", "3"⟩] ∧
     lookup (runAll Store.empty rs).files "rc0.binarypb" = some "bb" := by
   decide
